@@ -140,7 +140,9 @@ PostChecks(m, post) ==
 (***************************************************************************)
 EmptyUni == [par |-> <<0>>, diff |-> <<1>>, time |-> <<0>>, btx |-> <<<<1>>>>, tin |-> <<<<>>>>,
              tout |-> <<<<[a |-> 0, v |-> 0]>>>>, vsz |-> <<1>>]
-DummyCfg == [net |-> "regtest", thr |-> 1, api |-> TRUE, syncing |-> TRUE, gate |-> TRUE, lazy |-> FALSE]
+DummyCfg == [net |-> "regtest", thr |-> 1, api |-> TRUE, syncing |-> TRUE, gate |-> TRUE, lazy |-> FALSE,
+             fees |-> [ub |-> 0, ur |-> 0, um |-> 0, bal |-> 0, balm |-> 0, pct |-> 0, pctm |-> 0,
+                       hb |-> 0, hr |-> 0, hm |-> 0, sb |-> 0, sp |-> 0]]
 
 NoQ == [addr |-> -1, mc |-> -1, res |-> "none"]
 
@@ -260,13 +262,32 @@ GateReasons(m, ep, net) ==
 NetLower(n) == IF n = "Mainnet" THEN "mainnet" ELSE IF n = "Testnet" THEN "testnet"
                ELSE IF n = "Regtest" THEN "regtest" ELSE n
 
-\* the gate part of an answer: returns a check list; `inner` is used when the call is let through
+\* the gate and cycles part of an answer: returns a check list.
+\* `inner` is used when the call is let through; `success` tells whether the request-level
+\* processing succeeded (decides the variable part of the fee).
+ZeroFees == [ub |-> 0, ur |-> 0, um |-> 0, bal |-> 0, balm |-> 0, pct |-> 0, pctm |-> 0,
+             hb |-> 0, hr |-> 0, hm |-> 0, sb |-> 0, sp |-> 0]
+IsUpdate == ~Has(R, "mode") \/ R.mode = "update"
+LimitedCall == Has(R, "limit") /\ R.limit # 0     \* the page-size hook never charges
+AvailOf == IF Has(R, "avail") THEN R.avail ELSE -1
+InstrOf == IF Has(R, "instr") THEN R.instr ELSE 0
+
 Gated(m, ep, inner) ==
-  LET reasons == GateReasons(m, ep, NetLower(R.net)) IN
+  LET reasons == GateReasons(m, ep, NetLower(R.net))
+      paying == IsUpdate /\ ~LimitedCall
+  IN
   IF reasons # {}
   THEN << <<"gate.refuse." \o ep, "trap", R.ans.k>>,
-          <<"gate.reason." \o ep, TRUE, R.ans.k # "trap" \/ R.ans.why \in reasons>> >>
-  ELSE << <<"gate.answer." \o ep, TRUE, R.ans.k # "trap">> >> \o (IF R.ans.k = "trap" THEN <<>> ELSE inner)
+          <<"gate.reason." \o ep, TRUE, R.ans.k # "trap" \/ R.ans.why \in reasons>>,
+          <<"cycles.refused." \o ep, 0, R.cyc>> >>
+  ELSE IF paying /\ ~Enough(m.cfg.fees, ep, 0, AvailOf)
+  THEN << <<"cycles.insufficient." \o ep, "cycles", IF R.ans.k = "trap" THEN R.ans.why ELSE R.ans.k>>,
+          <<"cycles.refused." \o ep, 0, R.cyc>> >>
+  ELSE << <<"gate.answer." \o ep, TRUE, R.ans.k # "trap">> >>
+       \o (IF R.ans.k = "trap" THEN <<>>
+           ELSE inner \o << <<"cycles.charged." \o ep,
+                              IF paying THEN Charged(m.cfg.fees, ep, R.ans.k = "ok", InstrOf, 0) ELSE 0,
+                              R.cyc>> >>)
 
 AddrErrs == IF R.ac = "malformed" THEN {"MalformedAddress"}
             ELSE IF R.ac = "wrongnet" THEN {"AddressForWrongNetwork"} ELSE {}
@@ -362,7 +383,8 @@ TraceFees ==
   /\ LET m == St
          reasons == GateReasons(m, "get_current_fee_percentiles", NetLower(R.net))
          ev == FeeEval(m)
-         m2 == IF reasons # {} THEN m ELSE [m EXCEPT !.fee = ev.fee]
+         refused == reasons # {} \/ ~Enough(m.cfg.fees, "get_current_fee_percentiles", 0, AvailOf)
+         m2 == IF refused THEN m ELSE [m EXCEPT !.fee = ev.fee]
      IN /\ Install(m2) /\ UNCHANGED <<uni, nad, lastq, upg>>
         /\ bad' = ~AllAgree(Gated(m, "get_current_fee_percentiles", << <<"fees.values", ev.ans, R.ans.vals>> >>)
                             \o PostChecks(m2, R.post))
@@ -451,7 +473,30 @@ TracePageRaw ==
                       THEN << <<"page.unknownTip", [k |-> "err", err |-> "UnknownTipBlockHash"], R.ans>> >>
                  ELSE << <<"page.noTrap", TRUE, R.ans.k # "trap">> >>) \in BOOLEAN
 
+TraceSendTx ==
+  /\ Live("send_tx")
+  /\ LET m == St
+         net == NetLower(R.net)
+         o == SendTxOutcome(m, net, R.cls, R.len, AvailOf)
+         m2 == SendTx(m, net, R.cls, R.len, AvailOf)
+         expAns == CASE o = "ok" -> [k |-> "ok"]
+                     [] o = "malformed" -> [k |-> "err", err |-> "MalformedTransaction"]
+                     [] OTHER -> [k |-> "trap"]
+         gotAns == IF R.ans.k = "trap" THEN [k |-> "trap"] ELSE R.ans
+     IN /\ Install(m2) /\ UNCHANGED <<uni, nad, lastq, upg>>
+        /\ bad' = ~AllAgree(<< <<"sendtx.answer", expAns, gotAns>>,
+                               <<"sendtx.trapReason", TRUE,
+                                 R.ans.k # "trap" \/ (IF o = "cycles" THEN R.ans.why = "cycles"
+                                                      ELSE R.ans.why \in GateReasons(m, "send_transaction", net))>>,
+                               <<"sendtx.forwarded", IF o = "ok" THEN 1 ELSE 0, R.fwd>>,
+                               <<"sendtx.forwardedUnchanged", TRUE, R.fwd = 0 \/ R.fwdSame>>,
+                               <<"cycles.charged.send_transaction",
+                                 IF o \in {"ok", "malformed"} THEN Charged(m.cfg.fees, "send_transaction", TRUE, 0, R.len) ELSE 0,
+                                 R.cyc>> >>
+                            \o PostChecks(m2, R.post))
+
 TraceNext ==
+  \/ TraceSendTx
   \/ TraceWalkStart \/ TraceWalkNext \/ TracePageRaw
   \/ TraceUniverse \/ Skip \/ TraceTick \/ TraceHb \/ TraceHbSend \/ TraceHbReply
   \/ TraceSetConfig \/ TraceUpgrade \/ TracePush \/ TraceIngest
